@@ -289,3 +289,26 @@ Proof.
   intros g r Hwf Hr phi u. rewrite <- auto_q_ord_id.
   apply identity_general_any_order; [intros l; apply Permutation_refl|exact Hwf|exact Hr].
 Qed.
+
+(* ------------------------------------------------------------------ *)
+(* the same on the level of the polynomial expressions the extracted model reports: for every
+   substitution (ephi, eu) of expressions for phi and u, the model's polynomial and the exact one
+   take the same value at EVERY rational point *)
+Theorem identity_general_poly : forall (g : graph) (r : nat), wf_graph g = true -> In r (g_nodes g) ->
+    forall (ephi : pe) (eu : nat -> pe) (env : list Q),
+      peval env (auto_gen alg_pe g r ephi eu) == peval env (exact_gen alg_pe g r ephi eu).
+Proof.
+  intros g r Hwf Hr ephi eu env.
+  rewrite (auto_gen_hom alg_pe alg_q (peval env) (peval_hom env)).
+  rewrite (exact_gen_hom alg_pe alg_q (peval env) (peval_hom env)).
+  rewrite expectation_rec. apply (identity_general g r Hwf Hr).
+Qed.
+
+(* hence a polynomial accepted by the verified checker agrees with the model's polynomial everywhere *)
+Theorem check_accepts_only_model : forall (g : graph) (r : nat), wf_graph g = true -> In r (g_nodes g) ->
+    forall ephi eu ms, c15_checkb g r ephi eu ms = true ->
+    forall env, peval env (monos_expr ms) == peval env (auto_gen alg_pe g r ephi eu).
+Proof.
+  intros g r Hwf Hr ephi eu ms Hc env. unfold c15_checkb in Hc.
+  rewrite (peq_sound _ _ Hc env). symmetry. apply identity_general_poly; assumption.
+Qed.
